@@ -50,6 +50,10 @@ def build(r, name, n, mask, fieldless, generics=None):
         ders += ["VariantArray", "Display", "AsRefStr"]
     s.derives = ders
     gen.add_noise(r, s, enum_level=False, skip=("serialize", "std_default"))
+    if r.random() < 0.2:
+        s.nest = True
+        if r.random() < 0.5:
+            s.vis = r.choice(["pub(crate)", "pub(super)"])
     if not fieldless and r.random() < 0.4:
         dv = Variant(ident="CatchAll%s" % name, kind="tuple", fields=[Field(ty="String")], default=True)
         if r.random() < 0.3:
@@ -146,6 +150,8 @@ def check(run):
         mask = [r.random() < (0.25 if i % 2 else 0.0) for _ in range(n)]
         fl = r.random() < 0.6
         specs.append(build(r, "R%d" % i, n, mask, fieldless=fl, generics=None if fl else r.choice([None, "T", "N", "TU", "NT", "Tnd", "Tw"])))
+        if fl and i % 5 == 4:
+            specs[-1].generics = "Nfree"      # a field-less enum may still have (const) generic parameters
     # variants whose canonical names coincide (legal without EnumString): one entry per variant must remain
     for di, (vs, style) in enumerate(DUP_SHAPES):
         for pref in (None, "p:"):
